@@ -131,6 +131,10 @@ def op_copy(rng, f):
             not is_ioapi(f), {})
 
 
+# per-check switches of the op generators (a worker serves one property)
+OPTIONS = {'zipped': False}
+
+
 def op_slice(rng, f, ioapi_window=False):
     dims = [(k, len(d)) for k, d in f.dimensions.items() if len(d) > 0]
     if is_ioapi(f):
@@ -138,12 +142,23 @@ def op_slice(rng, f, ioapi_window=False):
                                                  'PERIM')]
     if not dims:
         return None
-    n = int(rng.integers(1, min(3, len(dims)) + 1))
+    zipped = OPTIONS['zipped'] and rng.random() < 0.3
+    if zipped:
+        n = int(rng.integers(min(2, len(dims)), min(4, len(dims)) + 1))
+    else:
+        n = int(rng.integers(1, min(3, len(dims)) + 1))
     chosen = [dims[i] for i in rng.permutation(len(dims))[:n]]
     sel = {}
     nlist = 0
+    ziplen = None
     for name, ln in chosen:
         kinds = ('i', 's', 'l') if nlist == 0 else ('i', 's')
+        if zipped and nlist > 0 and rng.random() < 0.7:
+            # a further index list of equal length: pointwise selection
+            sel[name] = {'l': [int(x) for x in rng.integers(-ln, ln,
+                                                            ziplen)]}
+            nlist += 1
+            continue
         if is_ioapi(f):
             # IOAPI: keep the result a regular grid: ints and unit slices,
             # plus index lists (one at most)
@@ -156,10 +171,11 @@ def op_slice(rng, f, ioapi_window=False):
             s = refsel.gen_selector(rng, ln, kinds=kinds)
         if 'l' in s:
             nlist += 1
+            ziplen = len(s['l'])
         sel[name] = s
     kw = {k: refsel.dec_sel(s) for k, s in sel.items()}
     return ('sliceDimensions(%s)' % sel, (lambda: f.sliceDimensions(**kw)),
-            [], True, {'sel': sel})
+            [], True, {'sel': sel, 'zipped': nlist > 1})
 
 
 def op_apply(rng, f):
